@@ -1098,6 +1098,42 @@ func vC15ServerScoping(c *vh.Case, n *vDNet) {
 			n.H.Net.Disconnect(from, false)
 			n.H.Net.Disconnect(asker, false)
 		}
+		// the node itself as provider (what an earlier Provide leaves in the store): its own record is scoped like any other
+		inner := n.D.WAN
+		if lan {
+			inner = n.D.LAN
+		}
+		key := []byte(vDCid(fmt.Sprintf("srv-self-%d-%d", c.Idx, round)).Hash())
+		if err := inner.ProviderStore().AddProvider(context.Background(), key, peer.AddrInfo{ID: n.Self}); err != nil {
+			c.Obs("server_"+proto+"_self_record_not_stored", 1)
+			continue
+		}
+		n.strangers++
+		asker := vsim.PeerID(fmt.Sprintf("dask%d", c.Idx), n.strangers)
+		n.Peers[asker] = &vDPeer{ID: asker, Name: fmt.Sprintf("ask%d", n.strangers), Kind: "asker"}
+		resp := vC15Serve(n, lan, asker, pb.NewMessage(pb.Message_GET_PROVIDERS, key, 0), true)
+		if resp == nil {
+			c.Obs("server_"+proto+"_no_answer", 1)
+			continue
+		}
+		for _, mp := range resp.GetProviderPeers() {
+			var bad []string
+			for _, a := range mp.Addresses() {
+				i, _ := n.U.Of(a)
+				if (!lan && !i.Public && !i.Neutral) || (lan && i.Loopback) {
+					bad = append(bad, a.String()+" ("+i.Class+")")
+				}
+			}
+			if lan {
+				c.Check(len(bad) == 0, "lan-server-serves-no-loopback", "LAN GET_PROVIDERS answer carries %v for the node's own provider record (host addresses %v)", bad, vDAddrStrings(n.H.Addrs()))
+			} else {
+				c.Check(len(bad) == 0, "wan-server-serves-only-public-addresses", "WAN GET_PROVIDERS answer carries %v for the node's own provider record (host addresses %v)", bad, vDAddrStrings(n.H.Addrs()))
+			}
+			if peer.ID(mp.GetId()) == n.Self {
+				c.Obs("server_"+proto+"_own_record_served", 1)
+			}
+		}
+		n.H.Net.Disconnect(asker, false)
 	}
 }
 
